@@ -12,7 +12,7 @@ From OV.proofs Require Import L_C10 L_C10_DK.
 Local Open Scope R_scope.
 
 (* (1) custom_root's tangent solve `lambda g, y: y / g(1.0)` inverts every linear map t |-> a t, a <> 0; together with the scalar
-   implicit-function theorem this is the derivative of the root w.r.t. a parameter (proved in C17, restated) *)
+   implicit-function theorem this is the derivative of the root w.r.t. a parameter (the same facts are proved in C17) *)
 Theorem C10_tangent_solve : forall a y : R, a <> 0 -> let g := fun t : R => a * t in g (y / g 1) = y.
 Proof. exact tangent_solve. Qed.
 Theorem C10_scalar_ift : forall (F : R -> R -> R) (x : R -> R) (p0 a b dx : R),
